@@ -431,6 +431,8 @@ class Func:
             l = op['l']
             return envd.get(l, envd.get(envd.get(('A', l), l)))
         ps = op['p']
+        if len(ps) == 1 and ps[0]['k'] == 'field' and ('F', op['l'], ps[0].get('i')) in envd:
+            return envd[('F', op['l'], ps[0].get('i'))]
         if len(ps) == 2 and ps[0]['k'] == 'downcast' and ps[1]['k'] == 'field' and ps[1].get('i') == 0:
             pv = envd.get(('P', op['l']))
             if pv is not None and pv[0] == ps[0].get('vidx'):
@@ -464,6 +466,14 @@ class Func:
             for k in [k for k, v in envd.items() if isinstance(k, tuple) and v == l]:
                 envd.pop(k, None)
         self._forget_enum(envd, x)
+        for k in [k for k in envd if isinstance(k, tuple) and k[0] == 'F' and k[1] == x]:
+            envd.pop(k, None)
+        # fields of a freshly built tuple/struct whose values are known (`match (flag, x) { (true, _) => ..`)
+        if rv is not None and rv['k'] == 'agg' and rv.get('ak') in ('tuple', 'adt') and x in self._frozen_enums() and rv.get('vidx') in (None, 0):
+            for i_, o_ in enumerate(rv.get('ops', [])):
+                v_ = self._env_operand(envd, o_)
+                if v_ is not None:
+                    envd[('F', x, i_)] = v_
         # enum facts: the variant of a freshly built aggregate, and moves/copies of a whole enum local
         if rv is not None and x in self._frozen_enums():
             if rv['k'] == 'agg' and rv.get('ak') == 'adt' and isinstance(rv.get('vidx'), int) and rv.get('variant') is not None:
@@ -669,6 +679,57 @@ class Func:
             self._env_block(envd, bb, i)
             for s2, e2 in self._env_succs(bb, envd):
                 dq.append((s2, 0, frozenset(e2.items())))
+        return out
+
+    def reaching_defs(self, starts, at, local, env0=None):
+        """definition locations of `local` (and of the locals it was copied from) that can reach location `at` on a
+        feasible path from starts (path-sensitive like forward_paths_hit); 'entry' stands for no definition on the path"""
+        roots = {local}
+        work = [local]
+        while work:
+            l = work.pop()
+            for loc, kind, payload in self.defs.get(l, []):
+                if kind == 'assign' and payload['k'] == 'use' and 'l' in payload['op'] and not payload['op']['p'] and payload['op']['l'] not in roots:
+                    roots.add(payload['op']['l'])
+                    work.append(payload['op']['l'])
+        out = set()
+        seen = set()
+        dq = deque()
+        for s_ in starts:
+            e0 = {**self._seed_env(s_[0]), **(env0 or {})}
+            dq.append((s_[0], s_[1], frozenset(e0.items()), (('V', local, 'entry'),)))
+        while dq:
+            bb, i, env, last = dq.popleft()
+            if (bb, i, env, last) in seen:
+                continue
+            seen.add((bb, i, env, last))
+            lastd = {k[1]: k[2] for k in last}
+            stmts = self.blocks[bb]['stmts']
+            envd = dict(env)
+            stop = False
+            for k in range(i, len(stmts) + 1):
+                if Loc(bb, k) == at:
+                    out.add(lastd.get(local, 'entry'))
+                    stop = True
+                    break
+                if k < len(stmts):
+                    st = stmts[k]
+                    if st['k'] == 'assign' and not st['lhs']['p'] and st['lhs']['l'] in roots:
+                        x = st['lhs']['l']
+                        rv = st['rv']
+                        if rv['k'] == 'use' and 'l' in rv['op'] and not rv['op']['p'] and rv['op']['l'] in roots:
+                            lastd[x] = lastd.get(rv['op']['l'], 'entry')
+                        else:
+                            lastd[x] = Loc(bb, k)
+                    self._env_block(envd, bb, k, k + 1)
+            if stop:
+                continue
+            t = self.blocks[bb]['term']
+            if t['k'] == 'call' and not t['dest']['p'] and t['dest']['l'] in roots:
+                lastd[t['dest']['l']] = self.term_loc(bb)
+            last2 = tuple(sorted((('V', k, v) for k, v in lastd.items()), key=repr))
+            for s2, e2 in self._env_succs(bb, envd):
+                dq.append((s2, 0, frozenset(e2.items()), last2))
         return out
 
     def _armed_search(self, arm_at, targets, blockers, track=True):
